@@ -15,8 +15,10 @@ ASSUME = [
 CLAUSES = {
     "C01": {"JoinAll", "NoStepAfterGroupExit", "HandleFinal", "EndsOnce", "SpawnOnlyIntoLiveGroup",
             "GroupScopeIsInnermost", "budget", "UnknownEvent"},
+    # "the group's remaining tasks are cancelled": the level-triggered clauses evaluated on group members
     "C02": {"NoneDropped", "NoneInvented", "NoDuplicates", "NoCancelLeaves", "NoErrorNoRaise",
-            "ErrorsRaiseGroup", "CancelOnlyPassesThrough"},
+            "ErrorsRaiseGroup", "CancelOnlyPassesThrough", "EveryCheckpointRaises",
+            "NothingBlockedInCancelledScope", "InterruptedWithinBoundedCycles"},
     "C07": {"ReturnsStartedValue", "ChildErrorToCaller", "EarlyFailureReported",
             "ChildDoneBeforeCancelledStartReturns", "GroupNotCancelledByStartFailure",
             "FirstStartedAccepted", "SecondStartedIsError"},
